@@ -62,6 +62,7 @@ class Ctx:
         self.known_hits = {}       # key -> (entry, count)
         self._seen_keys = set()
         self.notes = []
+        self.drifts = []           # conformance failures of specifications beyond the listed property
         self.scratch = tempfile.mkdtemp(prefix="verif-%s-" % prop, dir=os.environ.get("VERIF_SCRATCH"))
         SCRATCHES.append(self.scratch)
         # everything the code under test (and TLC) puts into "the temp dir" lands in the scratch
@@ -121,6 +122,23 @@ class Ctx:
         self.violations.append((key, what, path))
         return True
 
+    def drift(self, module, what, replay_obj):
+        """A conformance failure of a specification that goes BEYOND the listed property (the
+        growth part of the spec: RenderFlow, RpcConn, Slave, ...).  The code no longer follows that
+        specification, but the listed property itself is not shown violated - so this is reported
+        on a line of its own ("SPEC-DRIFT ...") and in the evidence, never as VIOLATION, and does
+        not change the exit status."""
+        d = os.path.join(VERIF, "replays", self.prop) if REPO == "/repo" else os.path.join(VERIF, "replays", "_alt", self.prop)
+        os.makedirs(d, exist_ok=True)
+        h = hashlib.sha1(("drift:" + module + what).encode("utf-8", "replace")).hexdigest()[:12]
+        path = os.path.join(d, "drift-" + h + ".json")
+        with open(path, "w") as f:
+            json.dump({"module": module, "what": what, "seed": self.seed, "tier": self.tier,
+                       "replay": replay_obj}, f, indent=1, default=repr)
+        self.drifts.append((module, what, path))
+        print("SPEC-DRIFT module=%s (beyond property %s, which is not affected) %s replay=%s"
+              % (module, self.prop, what[:400], path), flush=True)
+
     def machinery(self, msg):
         raise MachineryError(msg)
 
@@ -142,6 +160,7 @@ class Ctx:
             "known_findings_hit": [{"key": k, "count": c, "what": e.get("what", "")}
                                    for k, (e, c) in sorted(self.known_hits.items())],
             "notes": self.notes,
+            "spec_drift": [{"module": m, "what": w} for m, w, _ in self.drifts],
         }
         # evidence/<id>.json describes runs against /repo itself; a run against another tree
         # (VERIF_REPO, bin/seedtest) must not overwrite it
